@@ -298,9 +298,15 @@ func applyTombstone(graph *Graph, id string, info TombstoneInfo) {
 }
 
 func applyLegacyTitleMigration(graph *Graph) {
-	for _, task := range graph.Tasks {
+	for id, task := range graph.Tasks {
 		if strings.TrimSpace(task.Title) != "" {
 			continue
+		}
+		// Remember the stored form: compaction must write it back unchanged, otherwise later
+		// title/body updates would behave differently on a compacted log.
+		if meta := graph.Meta[id]; meta != nil {
+			meta.LegacyUntitled = true
+			meta.LegacyRawBody = task.Body
 		}
 		title, body := deriveTitleAndBodyFromLegacy(task.Body)
 		task.Title = title
@@ -380,6 +386,17 @@ func compactEvents(graph *Graph) ([]Event, error) {
 			lastEpicAt = meta.LastEpicAt
 		}
 
+		// What the log holds for title/body. For a legacy untitled item that is the empty title and the
+		// raw body (the visible title/body are derived from it on every replay), not the derived pair.
+		currentTitle, currentBody := task.Title, task.Body
+		if meta != nil && meta.LegacyUntitled {
+			currentTitle, currentBody = "", meta.LegacyRawBody
+			createdTitle = ""
+			if meta.CreatedBody == "" {
+				createdBody = currentBody
+			}
+		}
+
 		payload := NewTaskEvent{
 			ID:        task.ID,
 			UUID:      task.UUID,
@@ -399,11 +416,11 @@ func compactEvents(graph *Graph) ([]Event, error) {
 		}
 		events = append(events, event)
 
-		if task.Title != createdTitle || (!lastTitleAt.IsZero() && lastTitleAt.After(createdAt)) {
+		if currentTitle != createdTitle || (!lastTitleAt.IsZero() && lastTitleAt.After(createdAt)) {
 			ts := pickTime(lastTitleAt, task.UpdatedAt)
 			titleEvent, err := newEvent("title", ts, TitleUpdateEvent{
 				ID:    task.ID,
-				Title: task.Title,
+				Title: currentTitle,
 				TS:    formatTime(ts),
 			})
 			if err != nil {
@@ -412,11 +429,11 @@ func compactEvents(graph *Graph) ([]Event, error) {
 			events = append(events, titleEvent)
 		}
 
-		if task.Body != createdBody || (!lastBodyAt.IsZero() && lastBodyAt.After(createdAt)) {
+		if currentBody != createdBody || (!lastBodyAt.IsZero() && lastBodyAt.After(createdAt)) {
 			ts := pickTime(lastBodyAt, task.UpdatedAt)
 			bodyEvent, err := newEvent("body", ts, BodyUpdateEvent{
 				ID:   task.ID,
-				Body: task.Body,
+				Body: currentBody,
 				TS:   formatTime(ts),
 			})
 			if err != nil {
